@@ -194,6 +194,14 @@ void rt_violation (const char *oracle, const char *fmt, ...) {
 	innermost_fn (G->cur, G->viol.fn, sizeof G->viol.fn);
 }
 const struct rt_viol *rt_first_violation (void) { return G->has_viol ? &G->viol : NULL; }
+/* schedule files are written for the first few failures of EACH oracle (a check keeps only its own property's oracles) */
+int rt_should_save (const char *oracle) {
+	static struct { char o[24]; int n; } tab[16]; static int nt;
+	int i;
+	for (i = 0; i < nt; i++) if (!strcmp (tab[i].o, oracle)) return ++tab[i].n <= 3;
+	if (nt < 16) { snprintf (tab[nt].o, sizeof tab[0].o, "%s", oracle); tab[nt].n = 1; nt++; return 1; }
+	return 0;
+}
 int rt_crashed (void) { return G->crashed; }
 
 /* ------------------------------------------------------------------ names */
